@@ -124,12 +124,31 @@ impl SymExpr {
                     (i32::MIN, i32::MAX)
                 }
             }
-            Self::Add(lhs, rhs)
-            | Self::Mul(lhs, rhs)
-            | Self::Max(lhs, rhs)
-            | Self::Min(lhs, rhs)
-            | Self::Div(lhs, rhs)
-            | Self::DivCeil(lhs, rhs) => {
+            Self::Add(lhs, rhs) => {
+                let (lhs_min, lhs_max) = lhs.range();
+                let (rhs_min, rhs_max) = rhs.range();
+                range_of([
+                    lhs_min as i64 + rhs_min as i64,
+                    lhs_max as i64 + rhs_max as i64,
+                ])
+            }
+            Self::Mul(lhs, rhs) => {
+                let (lhs_min, lhs_max) = lhs.range();
+                let (rhs_min, rhs_max) = rhs.range();
+                range_of([
+                    lhs_min as i64 * rhs_min as i64,
+                    lhs_min as i64 * rhs_max as i64,
+                    lhs_max as i64 * rhs_min as i64,
+                    lhs_max as i64 * rhs_max as i64,
+                ])
+            }
+            Self::Div(lhs, rhs) => quotient_range(lhs.range(), rhs.range(), |x, y| x / y),
+            Self::DivCeil(lhs, rhs) => quotient_range(lhs.range(), rhs.range(), |x, y| {
+                // Round up if the exact quotient is positive and fractional.
+                let round_up = x % y != 0 && (x < 0) == (y < 0);
+                x / y + round_up as i64
+            }),
+            Self::Max(lhs, rhs) | Self::Min(lhs, rhs) => {
                 let (lhs_min, lhs_max) = lhs.range();
                 let (rhs_min, rhs_max) = rhs.range();
                 (lhs_min.min(rhs_min), lhs_max.max(rhs_max))
@@ -636,6 +655,44 @@ impl SymExpr {
             _ => false,
         }
     }
+}
+
+/// Return the smallest `i32` range that contains all of `values`, treating
+/// values outside the range of `i32` as `i32::MIN` or `i32::MAX`.
+fn range_of(values: impl IntoIterator<Item = i64>) -> (i32, i32) {
+    values
+        .into_iter()
+        .map(|x| x.clamp(i32::MIN as i64, i32::MAX as i64) as i32)
+        .fold(None, |range, x| match range {
+            None => Some((x, x)),
+            Some((min, max)) => Some((min.min(x), max.max(x))),
+        })
+        .unwrap_or((i32::MIN, i32::MAX))
+}
+
+/// Return the range of `div(x, y)` for all `x` in the range `lhs` and all
+/// non-zero `y` in the range `rhs`.
+///
+/// `div` must be a rounded quotient. These are monotonic in the dividend, and
+/// monotonic in the divisor among divisors of the same sign, so the extrema are
+/// found at the ends of the ranges.
+fn quotient_range(
+    (lhs_min, lhs_max): (i32, i32),
+    (rhs_min, rhs_max): (i32, i32),
+    div: impl Fn(i64, i64) -> i64,
+) -> (i32, i32) {
+    // Ends of the negative and positive parts of the divisor range.
+    let neg_divisors = (rhs_min < 0).then_some([rhs_min, rhs_max.min(-1)]);
+    let pos_divisors = (rhs_max > 0).then_some([rhs_min.max(1), rhs_max]);
+
+    let quotients = neg_divisors
+        .into_iter()
+        .chain(pos_divisors)
+        .flatten()
+        .flat_map(|y| [div(lhs_min as i64, y as i64), div(lhs_max as i64, y as i64)]);
+
+    // If the divisor is always zero, this returns the range of `i32`.
+    range_of(quotients)
 }
 
 /// Sort terms in an order that makes simplification easier, by making terms
